@@ -42,3 +42,4 @@ def run(chk):
     twins.rule_token_agreement(chk, cf.PROGRAM[0] or cf.Program(), 'K1', floor=150)
     from . import srcdst
     srcdst.rule_out_reads(chk, cf.PROGRAM[0] or cf.Program(), 'O1', floor=150)
+    srcdst.rule_src_offset(chk, cf.PROGRAM[0] or cf.Program(), 'O2', floor=60)
